@@ -42,6 +42,12 @@ CHECKS["C16"] = dict(text="TLC explores a step-machine transcription of QuickShi
     "mutation demo must yield a counterexample. Real QuickShift fits (1-4 dimensions, duplicates, collinear sets, per-point cut-offs, shells 1-3, "
     "scale, periodic cells) and their permuted / re-weighted / image-shifted variants are validated by TLC against the same reference.", ref="6/C16",
     tech="implementation-shaped TLA+ step machine checked against a declarative reference (TLC); TLC validation of recorded fits incl. metamorphic variants")
+CHECKS["C19"] = dict(text="TLC checks on ALL small integer point sets (1 and 2 hull dimensions) in general position that the reference definition "
+    "(a sample is a vertex iff strictly below every convex combination of the others at its position, by exact orientation determinants) coincides "
+    "with the supporting-facet lower hull, gives offset 0 on vertices and > 0 elsewhere, and is invariant under points added strictly above and positive "
+    "affine maps of y; recorded fits of the real class (1-3 hull dimensions, 0-3 extra columns, any low_dim_idx order, convex and non-convex targets, "
+    "queries inside the footprint, metamorphic variants) are validated by TLC against that reference with exact rational offsets.", ref="6/C19",
+    tech="exact-arithmetic TLA+ reference hull model-checked with TLC; TLC validation of recorded fits and queries")
 NA = {}
 def main():
     props = [json.loads(l)["id"] for l in open(os.path.join(HERE, "properties.jsonl"))]
